@@ -19,10 +19,11 @@ Units == {"", "b", "k", "kb", "kib", "m", "mb", "mib", "g", "gb", "gib", "t", "t
 Numbers == { [txt |-> "1", num |-> 1, den |-> 1], [txt |-> "2", num |-> 2, den |-> 1],
              [txt |-> "1.5", num |-> 3, den |-> 2], [txt |-> "0.5", num |-> 1, den |-> 2],
              [txt |-> ".5", num |-> 1, den |-> 2], [txt |-> "1.50", num |-> 3, den |-> 2],       \* (other spellings of the same fractions)
-             [txt |-> "2.0", num |-> 2, den |-> 1] }                                              \* (a whole number written with a fraction: any unit, also `b` and none)
+             [txt |-> "2.0", num |-> 2, den |-> 1],
+             [txt |-> "1.005", num |-> 201, den |-> 200], [txt |-> "2.675", num |-> 107, den |-> 40] }   \* (decimal fractions that binary floating point cannot hold exactly; with the decimal units the value is whole)                                              \* (a whole number written with a fraction: any unit, also `b` and none)
 (* fractional numbers only with units whose multiplier is even; `b`/none take whole numbers *)
 ValueOf(u, n) == DivSmall(MulSmall(Mult(u), n.num), n.den)
-Allowed(u, n) == n.den = 1 \/ Unit(u)[2] > 0
+Allowed(u, n) == n.den = 1 \/ (n.den = 2 /\ Unit(u)[2] > 0) \/ (n.den > 2 /\ u \in {"kb", "mb", "gb", "tb"})
 
 (* every letter-case variant of a unit, as strings *)
 RECURSIVE CaseVariants(_)
